@@ -395,6 +395,8 @@ let mon_c04 (r : runres) (sc : scenario) =
                 if i p <= 0 then fail "C04/success-without-child/pid<=0" (Printf.sprintf "reproc_pid = %d after a successful start" (i p))
                 else if i p <> c then fail "C04/success-without-child/wrong-pid" (Printf.sprintf "reproc_pid = %d, child is %d" (i p) c)
               | _ -> ());
+             if o.o_fork && (proc st.s_after c).pr_kind = KLib && (proc st.s_after c).pr_state <> Running then
+               fail "C04/success-without-child/fork-child-failed" (Printf.sprintf "start (fork mode) succeeded but child %d had already failed and exited inside start" c);
              if not o.o_fork then begin
                match image_of st.s_after c with
                | None ->
@@ -512,14 +514,17 @@ let mon_c10 (r : runres) =
   let main = main_of r in
   ignore (walk r (fun _ _ st evs ->
       match st.s_op, st.s_res with
-      | OStart (_, argv, o, _, _), RInt rr when i rr > 0 && not o.o_fork && i st.s_after.w_cur = main ->
+      | OStart (_, argv, o, _, _), RInt rr when i rr > 0 && i st.s_after.w_cur = main ->
         (match List.rev (forked_children main evs), parse_options o (argv_form argv) with
          | c :: _, Some eff ->
-           (match image_of st.s_after c with
-            | Some im ->
+           (* what the child holds: the image's descriptors after exec; in fork mode (no exec) the
+              descriptors of the forked child when start returns in it *)
+           (match (if o.o_fork then (if (proc st.s_after c).pr_kind = KScript then Some (fds_list (proc st.s_after c)) else None)
+                   else Option.map (fun im -> im.im_fds) (image_of st.s_after c)) with
+            | Some child_fds ->
               let pfds = fds_of st.s_before main in
               let files = List.map (fun (k, v) -> (i k, Option.map i v)) (files_list st.s_before) in
-              let imo fd = match List.find_opt (fun (k, _) -> i k = fd) im.im_fds with Some (_, d) -> Some d.f_obj | None -> None in
+              let imo fd = match List.find_opt (fun (k, _) -> i k = fd) child_fds with Some (_, d) -> Some d.f_obj | None -> None in
               let want_acc s = if s = 0 then ARd else AWr in
               let new_parent = List.filter (fun (k, d) -> not (List.mem (k, d) pfds)) (fds_of st.s_after main) in
               let expected_parent_ends = ref 0 in
@@ -537,6 +542,10 @@ let mon_c10 (r : runres) =
               let parent_redirect = List.exists (fun (rd : redirect) -> i rd.rd_type = 2) [ eff.o_in; eff.o_out; eff.o_err ] in
               let cause = if std_closed && parent_redirect then "parent-std-closed-then-parent-redirect"
                 else if std_closed then "parent-std-closed" else if std_alias then "std-handle-alias" else "" in
+              (* D21's cause (a stream redirected to a parent stream whose number was taken by an earlier
+                 stream's new descriptor) is the same call site in both modes: same key *)
+              let cause = if o.o_fork && cause <> "parent-std-closed-then-parent-redirect"
+                then "fork-mode" ^ (if cause = "" then "" else "/" ^ cause) else cause in
               List.iter (fun (s, (rd : redirect)) ->
                   let ty = i rd.rd_type in
                   let bad sub what = fail (if cause <> "" then "C10/stream-target/" ^ cause else Printf.sprintf "C10/stream-target/%d/%d/%s" s ty sub) what in
@@ -615,6 +624,17 @@ let mon_c03 (r : runres) =
                | _ -> ())
             | None -> ())
          | [] -> ())
+      | OStart (_, _, o, _, _), RInt rr when i rr > 0 && o.o_fork && i st.s_after.w_cur = main ->
+        (* fork mode: no exec, but the forked child runs with the requested environment and directory *)
+        (match List.rev (forked_children main evs) with
+         | c :: _ ->
+           let pb = proc st.s_before main and pc = proc st.s_after c in
+           let want_env = (if i o.o_env_behavior = 1 then [] else pb.pr_env) @ (match o.o_env_extra with Some l -> l | None -> []) in
+           if pc.pr_env <> want_env then
+             fail "C03/env-diff/fork-mode" (Printf.sprintf "forked child's environment %s, expected %s" (Show.list Show.str pc.pr_env) (Show.list Show.str want_env));
+           let want_cwd = match o.o_wd with Some d -> abs_path pb.pr_cwd d | None -> pb.pr_cwd in
+           if pc.pr_cwd <> want_cwd then fail "C03/cwd-diff/fork-mode" (Printf.sprintf "forked child's cwd %s, expected %s" (string_of_str pc.pr_cwd) (string_of_str want_cwd))
+         | [] -> ())
       | OStart (_, Some (a0 :: _), o, _, _), RInt rr
         when i rr = -2 && not o.o_fork && i st.s_after.w_cur = main && faults_of r = [] && List.exists (fun ch -> i ch = 47) a0 ->
         (* a program named by a path with a directory part is looked up from the PARENT's working
@@ -642,6 +662,10 @@ let mon_c13 (r : runres) =
            if i rr <> einval then fail "C13/accepted-invalid/start" (Printf.sprintf "start with invalid options returned %d" (i rr));
            let res = List.filter (fun e -> by main e && List.mem e.e_call [ CPipe; COpen; CFork ]) evs in
            if res <> [] then fail "C13/side-effect-before-reject" (Printf.sprintf "%s called before the options were rejected" (Show.call_name (List.hd res).e_call))
+         | Some _ when List.exists (fun (rd : redirect) -> i rd.rd_type < 0 || i rd.rd_type > 7) [ o.o_in; o.o_out; o.o_err ] ->
+           (* a redirect type outside the enumeration is never acted upon: invalid argument, no child *)
+           if i rr <> einval then fail "C13/accepted-invalid/redirect-type" (Printf.sprintf "start with a redirect type outside the enumeration returned %d" (i rr));
+           if List.exists (fun e -> by main e && is_call CFork e) evs then fail "C13/side-effect-before-reject" "fork called for options with a redirect type outside the enumeration"
          | Some _ -> if i rr = einval && faults_of r = [] && not (List.exists (fun e -> ret e = -1 && i e.e_errno = 22) evs)
                         && List.for_all (fun (rd : redirect) -> i rd.rd_type >= 0 && i rd.rd_type <= 7) [ o.o_in; o.o_out; o.o_err ] then
              fail "C13/rejected-valid/start" "start rejected documented-valid options")
@@ -745,8 +769,29 @@ let mon_c08_blocked (r : runres) =
         if polled > i t then fail "C08/poll-overrun/blocked-time" (Printf.sprintf "poll(%d) spent %d ms blocked in the OS poll" (i t) polled)
       | _ -> ()))
 
+(* clauses that do not depend on exact timing: they hold under latencies and injected faults too *)
+let mon_c08_always (r : runres) =
+  ignore (walk r (fun tbl _ st _ ->
+      let t1 = i st.s_after.w_time in
+      match st.s_op, st.s_res with
+      | OS (SPoll (srcs, _)), RPoll (rr, Some evs) when i rr >= 0 ->
+        List.iteri (fun k e ->
+            if i e land ev_deadline <> 0 then
+              (match List.nth_opt srcs k with
+               | Some (h, _) ->
+                 (match Hashtbl.find_opt tbl (i h) with
+                  | Some { started = true; deadline_abs = None; _ } -> fail "C08/deadline-wrong-source" "deadline event on a source without deadline"
+                  | Some { started = true; deadline_abs = Some d; _ } ->
+                    if t1 < d then fail "C08/deadline-early" (Printf.sprintf "deadline event at %d, deadline is %d" t1 d)
+                  | _ -> ())
+               | None -> ())) evs
+      | OS (SPoll (srcs, _)), RPoll (rr, None) when i rr >= 0 && srcs <> [] ->
+        fail "C08/poll-quiet-result/events-untouched" (Printf.sprintf "poll returned %d without assigning the events fields" (i rr))
+      | _ -> ()))
+
 let mon_c08 (r : runres) =
   mon_c08_blocked r;
+  mon_c08_always r;
   if no_latency r then
     ignore (walk r (fun tbl _ st _evs ->
         let t0 = i st.s_before.w_time and t1 = i st.s_after.w_time in
@@ -1124,6 +1169,11 @@ let mon_c15 (r : runres) (flags : string list) =
         (* the stop policy was applied: some wait (poll on the exit handle) or signal happened *)
         if not (List.exists (fun e -> by main e && (is_call CPoll e || is_call CKill e)) evs) then
           fail "C15/no-stop-on-destroy" "destroy of a running child performed no stop action";
+        (* "FIRST runs the stop sequence": nothing is released before the first wait or signal *)
+        (match List.filter (fun e -> by main e && List.mem e.e_call [ CPoll; CKill; CClose ]) evs with
+         | e :: _ when is_call CClose e ->
+           fail "C15/released-before-stop" (Printf.sprintf "destroy of a running child called %s before any step of its stop sequence" (Show.call_name e.e_call))
+         | _ -> ());
         if default && hx && not (reaped w1 c) && faults_of r = [] then
           fail "C15/abandoned-running-child" "destroy with the default policy returned while the child was not reaped"
       end;
